@@ -839,6 +839,10 @@ class Eval:
             cb = self.facts.bodies[f[2]]
             if env.depth < self.max_inline:
                 return self.inline_ret(cb, {i + 1: x for i, x in enumerate(args)}, env.depth + 1, site_path(site))
+        if f[0] == "fnref" and f[1] and not (f[2] and f[2] in self.facts.bodies):
+            # a path to an external function used as a callable (`.all(ComplexField::is_finite)`): the same call the
+            # closure `|x| x.is_finite()` makes
+            return ("call", f[1], None, tuple(args), site)
         return ("call", "apply", None, (f,) + tuple(args), site)
 
     presence_hook = None   # set by core: (ev, env, block) -> set of conditions holding at block
